@@ -446,7 +446,7 @@ func (x *Exec) strLen(s *Term) *Term {
 		l := x.tt.UF("strlen$", "Int", s)
 		if !x.addrSeen[-l.id-2000000] {
 			x.addrSeen[-l.id-2000000] = true
-			x.addFactRaw(x.tt.And(x.tt.Ge(l, x.tt.IntLit(0)), x.tt.Le(l, x.tt.IntLit(1<<40))))
+			x.addPermFact(x.tt.And(x.tt.Ge(l, x.tt.IntLit(0)), x.tt.Le(l, x.tt.IntLit(1<<40))))
 		}
 		if x.bv {
 			return x.tt.App("(_ int2bv 64)", bvSort(64), l)
@@ -1047,12 +1047,21 @@ func (x *Exec) tagOf(v *Term) *Term {
 	if v.Kind == KApp && isCtor(v.Op) {
 		return v.Args[0]
 	}
+	if t, ok := x.knownTag[v.id]; ok {
+		return t
+	}
 	return tt.App("tagOf", "Int", v)
 }
 
 // unbox extracts the payload of v as Go type T (assuming the tag matches).
 func (x *Exec) unbox(st *State, v *Term, T types.Type) Value {
 	r := x.unbox1(st, v, T)
+	if rt, ok := r.(*Term); ok && rt.Sort == "Int" {
+		if _, isP := T.Underlying().(*types.Pointer); isP && !rt.hasBound {
+			// (guarded: only meaningful when the dynamic type matches)
+			x.addFactRaw(x.tt.Implies(x.tt.Eq(x.tagOf(v), x.tidLit(T)), x.objKindFact(rt, T)))
+		}
+	}
 	if o, ok := x.valOrigin[v.id]; ok && x.isValidatorPtrType(T) {
 		if rt, ok := r.(*Term); ok {
 			x.noteChildLoad(o, rt)
@@ -1114,6 +1123,29 @@ func (x *Exec) execTypeAssert(fr *Frame, st *State, i *ssa.TypeAssert) {
 		} else {
 			rv = res
 		}
+		// an interface-to-interface assertion yields the same dynamic value (or nil): tag knowledge carries over
+		if rt, isT := rv.(*Term); isT && rt.Sort == "Val" {
+			if o, ok2 := x.valOrigin[v.id]; ok2 {
+				x.valOrigin[rt.id] = o
+			}
+			if ct, ok2 := x.condTag[v.id]; ok2 {
+				if x.condTag == nil {
+					x.condTag = map[int]*Term{}
+				}
+				x.condTag[rt.id] = ct
+			}
+			if kt, ok2 := x.knownTag[v.id]; ok2 {
+				if x.condTag == nil {
+					x.condTag = map[int]*Term{}
+				}
+				x.condTag[rt.id] = kt
+			}
+			if gs, ok2 := x.guarded[v.id]; ok2 {
+				for _, g := range gs {
+					x.guarded[rt.id] = append(x.guarded[rt.id], guardedTag{g.guard, g.tag, true})
+				}
+			}
+		}
 		x.setReg(st, i, &Agg{Elems: []Value{rv, ok}, T: i.Type()})
 		return
 	}
@@ -1130,6 +1162,14 @@ func (x *Exec) implements(v *Term, I types.Type) *Term {
 	}
 	// statically known constructor with literal tid: decide
 	tag := x.tagOf(v)
+	if ct, ok := x.tagIfNonNil(v); ok {
+		if n, ok := intVal(ct); ok {
+			id := int(n.Int64())
+			if id > 0 && id <= len(x.prog.tidList) {
+				return tt.And(tt.Not(tt.Is("vnil", v)), tt.Bool(types.Implements(x.prog.tidList[id-1], it)))
+			}
+		}
+	}
 	if n, ok := intVal(tag); ok {
 		id := int(n.Int64())
 		if id == 0 {
